@@ -233,7 +233,7 @@ class State:
         s.setattrs = list(self.setattrs)
         s.calls = list(self.calls)
         s.stores = list(self.stores)
-        s.counter = self.counter
+        s.counter = [self.counter[0]]  # ids are unique along a path; sibling paths number their own reads
         return s
 
     def new_id(self) -> int:
@@ -733,6 +733,12 @@ class Evaluator:
                 return SView(base.src, lo, hi)
             k = self.as_lin(self.eval(e.slice, st), e.slice)
             pos = (base.hi + k) if (k.is_const() and k.const < 0) else (base.lo + k)
+            # the same octet read again (an alias `b = v[0]` written out at each use) is the same value,
+            # as long as nothing was stored into that buffer on this path
+            if not any(getattr(b_, "src", None) == base.src or (isinstance(i_, SView) and i_.src == base.src) for b_, i_, _v, _n in st.stores):
+                for r_ in st.reads:
+                    if r_.kind == "int" and r_.src == base.src and r_.lo == pos and r_.hi == pos + 1 and r_.a.get("order") == "any" and not r_.a.get("signed") and not getattr(st, "loops", []):
+                        return Lin.atom(("read", r_.rid))
             rid = st.new_id()
             st.reads.append(Read(rid, "int", base.src, pos, pos + 1, order="any", signed=False, node=e))
             return Lin.atom(("read", rid))
@@ -777,6 +783,7 @@ class Evaluator:
             sub = st.fork()
             sub.env[var] = typed_value(f"{it.path}[*]", it.typ[1])
             elem = self.eval(e.elt, sub)
+            st.counter[0] = max(st.counter[0], sub.counter[0])
             return ("repeat", it.path, Lin.atom(("len", it.path)), elem, var)
         if isinstance(gen.iter, ast.Call) and unparse(gen.iter.func) == "range" and 1 <= len(gen.iter.args) <= 3 and not gen.iter.keywords:
             ra = [self.as_lin(self.eval(a, st), gen.iter) for a in gen.iter.args]
@@ -794,6 +801,7 @@ class Evaluator:
                     out_u.append(self.eval(e.elt, sub_u))
                     st.reads[:] = sub_u.reads
                     st.calls[:] = sub_u.calls
+                    st.counter[0] = max(st.counter[0], sub_u.counter[0])
                 return out_u
             return self._comp_range(e, var, count, st, start, step.const)
         if isinstance(it, STuple):
@@ -806,6 +814,7 @@ class Evaluator:
                 out.append(self.eval(e.elt, sub))
                 st.reads[:] = sub.reads
                 st.calls[:] = sub.calls
+                st.counter[0] = max(st.counter[0], sub.counter[0])
             return out
         raise Unsupported(f"{self.func.qual}:{e.lineno}: comprehension over {it!r}")
 
@@ -821,6 +830,7 @@ class Evaluator:
         sub.env[var] = (start if start is not None else Lin(0)) + itv.scale(step)
         base = len(sub.reads)
         elem = self.eval(e.elt, sub)
+        st.counter[0] = max(st.counter[0], sub.counter[0])
         body = sub.reads[base:]
         st.calls[:] = sub.calls if len(sub.calls) >= len(st.calls) else st.calls
         key = ("iter", lid)
